@@ -148,20 +148,39 @@ def r2_rule_selection(ctx):
             continue
         ctx.check((h.conv, h.ret) == want, UT, "StandardUnitType._istype", f"rule for {name}", detail=[h.conv, h.ret], expected=list(want))
     # dispatch: __new__ returns the instance only when _istype() is true
+    from ..flowexpr import consistent, paths, truth
     fn = ctx.fn(UT, "UnitType.__new__")
-    s = norm(fn)
-    ok = "obj.baseunits1 = baseunits1" in s and "obj.baseunits2 = baseunits2" in s and "if obj._istype(): return obj else: return None" in s.replace("\n", " ")
-    ctx.form(ok, UT, "UnitType.__new__", "a type claims a pair iff _istype() holds; the two unit objects are stored in (from, to) order")
+    pa = [a.arg for a in fn.args.args]
+    OBJ = "object.__new__#1"
+    ps = paths(fn, opaque_calls=True)
+    ok = len(pa) == 3
+    rows = []
+    for claims in (True, False):
+        atom = lambda e, _c=claims: _c if norm(e) == f"{OBJ}._istype()" else None   # noqa: E731
+        qs, unk = consistent(ps, atom)
+        for q in qs:
+            r = next((e.resolved for e in q.events if e.kind == "return"), None)
+            while isinstance(r, ast.IfExp):
+                t = truth(r.test, atom)
+                if t is None:
+                    break
+                r = r.body if t else r.orelse
+            stores = {e.extra: norm(e.resolved) for e in q.events if e.kind == "store"}
+            rows.append((claims, norm(r) if r is not None else None, stores))
+        ok = ok and bool(qs) and not unk
+    ok = ok and all((r == OBJ) if c else (r == "None") for c, r, st in rows) and \
+        all(st.get(f"{OBJ}.baseunits1") == pa[1] and st.get(f"{OBJ}.baseunits2") == pa[2] for c, r, st in rows)
+    ctx.form(ok, UT, "UnitType.__new__", "a type claims a pair iff _istype() holds; the two unit objects are stored in (from, to) order",
+             detail=[(c, r) for c, r, st in rows])
     for name in ("_convert", "_add", "_sub"):
         fn = ctx.fn(Q, f"Quantity.{name}")
-        loops = [n for n in fn.body if isinstance(n, ast.For)]
-        ok = len(loops) == 1 and norm(loops[0].iter) == "UNIT_TYPES" and any(isinstance(x, ast.Return) for x in ast.walk(loops[0])) \
-            and any(isinstance(x, ast.Raise) for x in loops[0].orelse)
-        ctx.form(ok, Q, f"Quantity.{name}", "first claiming type is used; no claiming type is an error")
-    fn = ctx.fn(Q, "Quantity._convert")
-    s = norm(fn)
-    ctx.form("utype(baseunits1, baseunits2)" in s and "return c.convert(magnitude1)" in s, Q, "Quantity._convert",
-              "the pair is offered in (from, to) order and the claimed rule converts the magnitude")
+        fl = K.first_claim_loop(fn)
+        ok = fl is not None and fl["iter"] == "UNIT_TYPES" and fl["claimed_all_return"] and fl["falls_through"] and fl["exhausted_raises"]
+        ctx.form(ok, Q, f"Quantity.{name}", "first claiming type is used; no claiming type is an error", detail=fl)
+        if name == "_convert":
+            pa = [a.arg for a in fn.args.args]
+            ok = fl is not None and len(pa) == 4 and fl["claim"] == f"T({pa[2]}, {pa[3]})" and fl["returns"] == [f"T({pa[2]}, {pa[3]}).convert({pa[1]})"]
+            ctx.form(ok, Q, "Quantity._convert", "the pair is offered in (from, to) order and the claimed rule converts the magnitude", detail=fl)
 
 
 def r3_type_order(ctx):
